@@ -548,8 +548,9 @@ func (e *Extractor) showText(data []byte) {
 	if f, ok := e.fonts[fontName]; ok {
 		decodedText = f.DecodeString(data)
 	} else {
-		// No font registered - use raw bytes as string (fallback)
-		decodedText = string(data)
+		// No font registered - use raw bytes as string (fallback), made valid
+		// UTF-8 and normalized like every other decoded string
+		decodedText = font.NormalizeUnicode(strings.ToValidUTF8(string(data), "\uFFFD"))
 	}
 
 	// Calculate text width
